@@ -408,7 +408,11 @@ func oracleC01(o *resOp) bool {
 	}
 	if truth.Bogus {
 		if m.Rcode != dns.RcodeServerFailure {
-			res.Fail("C01/expired-signatures-accepted", "%s: a zone on the secure path only has signatures outside their validity window, yet the client did not get SERVFAIL", ctx)
+			hit := ""
+			for _, f := range fired {
+				hit += fmt.Sprintf(" [tampering %s hit the %s response of %s]", f.kind, f.step, f.zone)
+			}
+			res.Fail("C01/expired-signatures-accepted", "%s: a zone on the secure path only has signatures outside their validity window, yet the client did not get SERVFAIL%s", ctx, hit)
 			return false
 		}
 		res.Probes["bogus-window-servfail"]++
